@@ -208,7 +208,13 @@ def run_stage(al, build, case, item, maxk):
     reads = []
     budget = False
     try:
-        out = iter(build(al, src, case))
+        try:
+            out = iter(build(al, src, case))
+        except BudgetExceeded:
+            raise
+        except Exception:          # a constructor that raises: what it had read by then is still an observation
+            reads.append(src.read)
+            return reads, budget
         reads.append(src.read)
         for _ in range(maxk):
             try:
